@@ -53,13 +53,20 @@ func (r *ascii85Reader) Read(p []byte) (n int, err error) {
 	if len(p) == 0 {
 		return 0, nil
 	}
-	if r.immediateError != nil {
-		return 0, r.immediateError
-	}
 
+	// Decoded bytes which did not fit into the caller's buffer are delivered
+	// before anything else, including a latched error or EOF.
+	defer func() {
+		if len(r.leftover) > 0 && n > 0 {
+			err = nil
+		}
+	}()
 	if len(r.leftover) > 0 {
 		n = copy(p, r.leftover)
 		r.leftover = r.leftover[n:]
+	}
+	if r.immediateError != nil {
+		return n, r.immediateError
 	}
 
 	for n < len(p) {
